@@ -96,6 +96,26 @@ CHECKS['C05'] = dict(
          'bounded stand-in.',
     note='trusted: the float-modulo model (fmod axioms), the shape of f"{x:.6f}", freshness of constructor results, '
          'pyvc/z3; NaN/infinity excluded by the property; Cython twin unverified.')
+CHECKS['C12'] = dict(
+    category='proof',
+    technique='contract-based deductive verification: pyvc lemmas that run the real AtomicWriter.__enter__ / '
+              'make_tempfile / __exit__ on an axiomatised directory (name -> content, owned temp set) with a '
+              'non-deterministic OSError at every primitive; obligations on every primitive (crash points); AST '
+              'obligations for BSP.save; bounded native fault injection',
+    text='Eight lemmas (commit, empty commit, body abandoned by Exception / KeyboardInterrupt / SystemExit, re-entering '
+         'without exit, re-use after commit and after abandon) execute the real make_tempfile/__enter__/__exit__ bodies '
+         'against a file-system model in which any one primitive (mkdir, open, write, close, unlink, rename) may fail '
+         'and any tmp_N may belong to another writer. Proved for all names and fault choices: before every primitive '
+         '(= at every kill point) the destination holds the old or the complete new content; the destination changes '
+         'only through one rename of an own, successfully closed temp after the body completed; open is exclusive and '
+         'never on the destination; unlink/rename touch only temps this writer currently owns; after success the new '
+         'content is in place and no temp is left; after an abandoned or failed write the old content remains and no '
+         'temp is left (except when the injected failure is the cleanup unlink itself). BSP.save is shown (AST) to '
+         'touch the file system only inside one `with AtomicWriter(filename or self.filename)` block. Native fault '
+         'injection (single faults x body exits x taken temp names, two interleaved writers, BSP.save with every '
+         'write torn) is a bounded stand-in.',
+    note='trusted: the directory model (exclusive create and rename are atomic, a failed primitive changes nothing); '
+         'durability/fsync is outside the property; side condition: the destination is not itself named tmp_N.')
 CHECKS['C13'] = dict(
     category='other',
     technique='contract-based deductive verification: pyvc lemmas running the real FileInfo.write then read/verify '
